@@ -204,6 +204,14 @@ class PlanJoinTSPredictorQuery:
 
         time_filter = find_time_filter(preparation_where, time_column_name=predictor_time_column_name)
 
+        # a comparison written value-first (5 < ts) is the same condition as ts > 5: bring it into the column-first form
+        if isinstance(time_filter, BinaryOperation) and len(time_filter.args) == 2 \
+                and not isinstance(time_filter.args[0], Identifier) and isinstance(time_filter.args[1], Identifier):
+            mirrored = {'<': '>', '<=': '>=', '>': '<', '>=': '<=', '=': '='}
+            if time_filter.op in mirrored:
+                time_filter.op = mirrored[time_filter.op]
+                time_filter.args = [time_filter.args[1], time_filter.args[0]]
+
         order_by = [OrderBy(Identifier(parts=[predictor_time_column_name]), direction='DESC')]
 
         query_modifiers = query.modifiers
